@@ -1,6 +1,6 @@
 (* Properties_C02.v — obligations of property C02 (PS/RT/PTYN characters land in the addressed
    cells via the RDS charset). *)
-Require Import ObsRun Lemmas_TextProps Lemmas_TabConv Lemmas_ObsText.
+Require Import ObsRun Lemmas_TextProps Lemmas_TabConv Lemmas_ObsText Lemmas_Leaf.
 Local Open Scope Z_scope.
 
 (* the character table measured on the compiled library equals the reference G0 table, maps 0x0D to
@@ -76,6 +76,15 @@ Theorem C02_observer : forall conv lut h s o ret, reach conv lut h s -> wf_op o 
   obs_C02 conv (o :: h) (snap_of s) (snap_of (fst (step conv lut s o))) (snd (step conv lut s o)) ret = true.
 Proof. exact obs_C02_holds. Qed.
 Print Assumptions C02_observer.
+
+(* THE CODE ITSELF.  GenLeaf.v is produced on every run by tools/cleaf.py from clang's typed AST of
+   the C sources (every implicit integer conversion explicit).  The translated C functions equal the
+   functions the model uses, for every value of the four 16-bit blocks: the cell addresses *)
+Theorem C02_code_addresses : forall d0 d1 d2 d3, 0 <= d1 < 65536 ->
+  c_get_ps_pos d0 d1 d2 d3 = get_ps_pos d1 /\ c_get_rt_pos d0 d1 d2 d3 = get_rt_pos d1
+  /\ c_get_ptyn_pos d0 d1 d2 d3 = get_ptyn_pos d1.
+Proof. intros d0 d1 d2 d3 H. repeat split; [apply leaf_get_ps_pos|apply leaf_get_rt_pos|apply leaf_get_ptyn_pos]; exact H. Qed.
+Print Assumptions C02_code_addresses.
 
 Example C02_scenario : check_run_u (observer_u 2) scenario = true.
 Proof. vm_compute. reflexivity. Qed.
